@@ -58,8 +58,9 @@ Print Assumptions trunc_prefix.
    Hypotheses (the ones of C03 render_parse): WfMsg o m - any opcode but UPDATE (updates: next theorem),
    names absolute-and-not-below-the-origin or relative, TTL <= 2^31-1, distinct record-set keys and distinct
    RDATA per set, and every record set of a type/class for which MessageM.schema_of gives the reader's field
-   list: A AAAA SRV KX PX DHCID NSAP (class IN); NS CNAME SOA PTR MX TXT RRSIG SPF NINFO AVC RESINFO WALLET AFSDB RT
-   RP SSHFP TLSA SMIMEA CERT DNSKEY CDNSKEY OPENPGPKEY EUI48 EUI64 L32 L64 NID HINFO X25 (any class); and
+   list: A AAAA SRV KX PX DHCID NSAP WKS NAPTR (class IN); NS CNAME SOA PTR MX TXT RRSIG SPF NINFO AVC RESINFO WALLET AFSDB RT
+   RP SSHFP TLSA SMIMEA CERT DNSKEY CDNSKEY OPENPGPKEY EUI48 EUI64 L32 L64 NID HINFO X25 NSEC3PARAM URI KEY DS DLV
+   CDS ZONEMD CAA CSYNC NSEC3 (any class; the last six with their constructors' content checks, MessageM.chk); and
    every type without a codec in dns/rdtypes (generic form).  Types with a codec outside that list
    (MessageM.any_types / in_types minus the above) are outside the theorem; they are exercised by the
    oracle of the limit sweep only. *)
